@@ -64,6 +64,9 @@ func classes(f iogen.SeqFile) []string {
 		if r.Len == 0 {
 			seen["empty-seq"] = true
 		}
+		if len(r.Desc) > 4000 {
+			seen["header-line>4000"] = true
+		}
 		if f.Format == "fasta" && r.Len > f.Width {
 			seen["multi-line"] = true
 		}
